@@ -64,6 +64,11 @@ func (vs *ValidatorStore) CheckMaliciousValidators(es *evidence.EvidenceStore, g
 			continue
 		}
 		if votes < evidenceOptions.MinVotesRequired {
+			// already frozen (e.g. by a guilty verdict): keep that record; a missed-votes record
+			// would replace it and can be released at once
+			if _, frozen := vs.maliciousValidators[addr]; frozen {
+				continue
+			}
 			key := append(vs.prefix, baddr...)
 			data := vs.store.GetVersioned(vs.lastHeight-1, key)
 			if len(data) == 0 {
